@@ -184,9 +184,22 @@ def known_collision_spec(W, spec) -> bool:
     return kind == "str" and x in W.wkt_names
 
 
+def legend(W, obj) -> Dict[str, str]:
+    """the stand-in names (#k) used in a case, with the beginning of the text they stand for"""
+    import re
+
+    out = {}
+    for n in sorted(set(re.findall(r"#d?\d+", json.dumps(obj)))):
+        if n in W.texts:
+            out[n] = W.texts[n][:90].replace("\n", " ")
+        elif n in W.dicts:
+            out[n] = "dict " + json.dumps(W.dicts[n])[:80]
+    return out
+
+
 def judge_records(R: Run, W, ops: list, res: dict, fresh: Dict[str, set], hist_id: str):
     """model-independent oracles on what the worker saw"""
-    case_base = {"history": ops}
+    case_base = {"history": ops, "texts": legend(W, ops)}
     for rec in res["records"]:
         k = rec["k"]
         if k == "mk":
@@ -197,7 +210,11 @@ def judge_records(R: Run, W, ops: list, res: dict, fresh: Dict[str, set], hist_i
                      f"hash/token of CRS({rec['spec']}) are not those of its string form", trivial=True)
         elif k in ("copy", "pickle"):
             ok = rec["eq"] and rec["str_same"] and rec["hash_same"] and rec["tok_same"]
-            R.oracle(ok, f"crs-{k}-roundtrip", {**case_base, "spec": rec["spec"]},
+            key = f"crs-{k}-roundtrip"
+            if not ok and k == "pickle" and rec["eq"] and rec.get("str") in W.wkt_names:
+                # the pickled text is the to_wkt() of a pyproj object: CRS(text) may hit that object's entry
+                key = F16
+            R.oracle(ok, key, {**case_base, "spec": rec["spec"]},
                      f"CRS {k} of CRS({rec['spec']}): eq={rec['eq']} str_same={rec['str_same']} "
                      f"hash_same={rec['hash_same']} token_same={rec['tok_same']}")
         elif k == "tr":
@@ -298,6 +315,7 @@ def part_a(R: Run):
         key = F16 if known_collision_spec(W, spec) else "crs-str-history-dependent"
         hs = list(seen.items())
         case = {"spec": spec, "strs": [s for s, _ in hs], "histories": [hist_ops[h] for _, h in hs[:2]]}
+        case["texts"] = legend(W, case)
         R.oracle(ok, key, case,
                  f"str(CRS({spec})) is {hs[0][0][:12]!r} in history {hs[0][1]} but "
                  f"{hs[-1][0][:12]!r} in history {hs[-1][1]}" if not ok else "")
